@@ -49,6 +49,9 @@ def realloc (b : Bitmap) (n : Nat) : Bitmap :=
 def modify (b : Bitmap) (g : Nat → Word → Word) : Bitmap :=
   build b.count (fun j => g j (b.readWord j)) b.inf
 
+/-- overwrite the `infinite` flag only -/
+def setInf (b : Bitmap) (f : Bool) : Bitmap := ⟨b.words, f⟩
+
 def set (b : Bitmap) (cpu : Nat) : Bitmap :=
   if b.inf && decide (b.count * 64 ≤ cpu) then b
   else (b.realloc (cpu/64+1)).modify (fun j w => if j = cpu/64 then w ||| bitW (cpu%64) else w)
@@ -67,8 +70,8 @@ def setRange (b : Bitmap) (beg : Nat) (en : Option Nat) : Bitmap :=
     if b.inf && decide (b.count * 64 ≤ beg) then b
     else
       let b' := b.realloc (beg/64+1)
-      { (b'.modify (fun j w => if j = beg/64 then w ||| fromW (beg%64)
-                               else if beg/64 < j then BitVec.allOnes 64 else w)) with inf := true }
+      (b'.modify (fun j w => if j = beg/64 then w ||| fromW (beg%64)
+                               else if beg/64 < j then BitVec.allOnes 64 else w)).setInf true
   | some e =>
     if e < beg then b
     else if b.inf && decide (b.count * 64 ≤ beg) then b
@@ -89,8 +92,8 @@ def clrRange (b : Bitmap) (beg : Nat) (en : Option Nat) : Bitmap :=
     if !b.inf && decide (b.count * 64 ≤ beg) then b
     else
       let b' := b.realloc (beg/64+1)
-      { (b'.modify (fun j w => if j = beg/64 then w &&& ~~~ fromW (beg%64)
-                               else if beg/64 < j then 0#64 else w)) with inf := false }
+      (b'.modify (fun j w => if j = beg/64 then w &&& ~~~ fromW (beg%64)
+                               else if beg/64 < j then 0#64 else w)).setInf false
   | some e =>
     if e < beg then b
     else if !b.inf && decide (b.count * 64 ≤ beg) then b
@@ -196,7 +199,7 @@ def nextUnset (b : Bitmap) (prev : Int) : Int :=
 def singlify (b : Bitmap) : Bitmap :=
   match b.firstNZ with
   | some i => build b.count (fun j => if j = i then bitW (ffsl (b.readWord i) - 1) else 0#64) false
-  | none => if b.inf then set ⟨b.words, false⟩ (b.count * 64) else b
+  | none => if b.inf then set (b.setInf false) (b.count * 64) else b
 
 def weight (b : Bitmap) : Int :=
   if b.inf then -1 else (((b.words.map weightLong).sum : Nat) : Int)
